@@ -27,7 +27,7 @@ Definition mm_id (n : nat) : modemap := (n, fun i => Some i).
 Definition mm_pad (n b a : nat) : modemap :=
   ((b + n + a)%nat, fun i => if (b <=? i)%nat && (i <? b + n)%nat then Some (i - b)%nat else None).
 
-(* ---- pad (TT tensors), as repaired: zero padding, then  + value * (ones - indicator of the block) ----
+(* ---- pad (TT tensors), as repaired (twice): zero padding, then  + value * (indicator of the complement of the block) ----
    padding is given for every mode (the code left-fills with (0,0)) *)
 Fixpoint pad_maps (ns : list nat) (padding : list (nat * nat)) : list modemap :=
   match ns, padding with
@@ -37,11 +37,27 @@ Fixpoint pad_maps (ns : list nat) (padding : list (nat * nat)) : list modemap :=
 Definition fill_pads (d : nat) (padding : list (nat * nat)) : list (nat * nat) :=
   repeat (0%nat, 0%nat) (d - length padding) ++ padding.
 Definition padz (x : tt R) (padding : list (nat * nat)) : tt R := remaps (pad_maps (shape x) padding) x.
+(* the indicator of the complement of the original block, as the code builds it: cores with entries 0 / 1 only and two rank slots,
+   row 0 = "every mode so far inside the block", row 1 = "already outside"; the last core closes with "outside" (nothing cancels) *)
+Definition outside_core (first last : bool) (n b a : nat) : core3 R :=
+  mk3 (if first then 1 else 2)%nat (b + n + a)%nat (if last then 1 else 2)%nat
+      (fun p i q =>
+         let ins := (b <=? i)%nat && (i <? b + n)%nat in
+         if Nat.eqb p 0 then
+           (if last then (if ins then 0 else 1)
+            else if Nat.eqb q 0 then (if ins then 1 else 0) else (if ins then 0 else 1))
+         else (if last then 1 else if Nat.eqb q 0 then 0 else 1)).
+Fixpoint outside_cores (first : bool) (ns : list nat) (pd : list (nat * nat)) : tt R :=
+  match ns, pd with
+  | n :: nt, (b, a) :: pt => outside_core first (match nt with [] => true | _ => false end) n b a :: outside_cores false nt pt
+  | _, _ => []
+  end.
+Definition outside_tt (ns : list nat) (pd : list (nat * nat)) : tt R := outside_cores true ns pd.
 Definition pad_tt (x : tt R) (padding : list (nat * nat)) (value : R) : tt R :=
   let pd := fill_pads (length x) padding in
   let z := padz x pd in
   if reqb value 0 then z
-  else add z (mul_scalar (sub (ones_tt (shape z)) (padz (ones_tt (shape x)) pd)) value).
+  else add z (mul_scalar (outside_tt (shape x) pd) value).
 
 (* ---- cat: block placement with running rank offsets = nested block sums of the operands embedded with
    zeros along the concatenation mode ---- *)
